@@ -848,7 +848,7 @@ var c16Assumptions = []string{
 
 var c16Prop = kit.Prop[C16Case]{
 	ID:          "C16",
-	Rule:        "form / renew / refresh (full and partial) between the real client and the real server: drawn allowance / collateral / proof height (valid or rejected by validation), existing contract of 0..2 sectors, basis relation (same tip; renter k blocks behind; renter on a stale fork the host applied and left; stale fork the host stored but never applied; basis unknown to the host), renter funds confirmed or unconfirmed with parents (optionally created on the renter's fork), and one fault (none; dial failure; connection cut at each of the four message boundaries; one of the four messages corrupted by the typed MITM). Success => both parties hold the same fully signed contract, the returned set is accepted by an independent node's pool at its basis and, mined, creates exactly that contract with core's funding split. Failure => no contract recorded and SpendableOutputs / Balance().Spendable of both wallets equal their pre-attempt values, also over repeated attempts. Non-trivial = failure after the host reserved inputs, or basis != host tip; distinct by case hash.",
+	Rule:        "form / renew / refresh (full and partial) between the real client and the real server: drawn allowance / collateral / proof height (valid, rejected by validation, or not fundable by host or renter), existing contract of 0..2 sectors that is confirmed, formed-but-unmined or reorganised away, basis relation (same tip; renter k blocks behind; renter on a stale fork the host applied and left; stale fork the host stored but never applied; basis unknown to the host), renter funds confirmed or unconfirmed with parents (optionally created on the renter's fork), and one disturbance (none; dial failure; renter pool failure; host chain advancing while a renter message is in flight; connection cut at each of the four message boundaries; one of the four messages corrupted by the typed MITM). Success => both parties hold the same fully signed contract, the returned set is accepted by an independent node's pool at its basis and, mined, creates exactly that contract with core's funding split. Failure => no contract recorded and SpendableOutputs / Balance().Spendable of both wallets equal their pre-attempt values, also over repeated attempts and in a fault-free follow-up after the host committed. An exchange with nothing in its way must succeed. Non-trivial = failure after the host reserved inputs, basis != host tip, or an existing contract without a state element; distinct by case hash.",
 	Assumptions: c16Assumptions,
 	Gen:         genC16,
 	Run:         runC16,
@@ -860,7 +860,7 @@ func TestC16(t *testing.T) { c16Prop.Main(t) }
 // family, dial failure, none) on the same tip, and every basis relation x
 // funding mode without a fault and with the cut after the host funded.
 func TestC16Enum(t *testing.T) {
-	d := kit.NewDirect(t, "C16", "enumeration: every RPC x {no fault, dial failure, cut at each boundary of each side, every corruption family of each message} on the same tip with confirmed inputs; every RPC x every basis relation x {confirmed, unconfirmed, funds on fork} x {no fault, cut before the renter's signatures}; every RPC x every parameter rejection", c16Assumptions...)
+	d := kit.NewDirect(t, "C16", "enumeration: every RPC x {no fault, dial failure, renter pool failure, cut at each boundary of each side, every corruption family of each message} on the same tip with confirmed inputs; every RPC x every basis relation x {confirmed, unconfirmed, funds on fork} x {no fault, cut before the renter's signatures, bogus basis}; every RPC x every parameter rejection; every RPC x {same, behind, stale} x {confirmed, unconfirmed} x host chain advancing under the request / the renter's signatures; every non-form RPC x {unmined, reorged} existing contract x {same, behind, unknown} x {no fault, cut} with host cost > 0", c16Assumptions...)
 	d.St.Exhaustive = true
 	defer d.Done()
 	all := os.Getenv("VERIF_C16_ALL") != ""
